@@ -1318,6 +1318,9 @@ func (e *Entry) FixChoice() {
 					Prefix: ce.Prefix,
 					Dir:    map[string]*Entry{ce.Name: ce},
 					Extra:  map[string][]interface{}{},
+					// The implicit case is placed by the text that
+					// placed its member (an augment, for instance).
+					namespace: ce.namespace,
 				}
 				ce.Parent = ne
 				e.Dir[k] = ne
